@@ -32,13 +32,13 @@ def random_ops(rng, n, per_name):
             name = rng.choice(fd.NAMES)
             mime = ("application/json" if name == "a" else "application/octet-stream") if per_name \
                 else rng.choice(MIMES)
-            ops.append({"op": "store_file", "name": name, "v": rng.choice([0, 1, 2, 3, 1, 3]), "mime": mime,
+            ops.append({"op": "store_file", "name": name, "v": rng.choice([0, 1, 2, 3, 1, 3, 4]), "mime": mime,
                         "ow": rng.random() < 0.6})
         else:
             c = rng.choice(fd.CHUNKS)
             mime = ("application/octet-stream" if c == fd.CHUNKS[0] else "image/jpeg") if per_name \
                 else rng.choice(MIMES)
-            ops.append({"op": "store_chunk", "c": list(c), "v": rng.choice([0, 1, 2, 3, 1, 3]), "mime": mime,
+            ops.append({"op": "store_chunk", "c": list(c), "v": rng.choice([0, 1, 2, 3, 1, 3, 4]), "mime": mime,
                         "ow": rng.random() < 0.6})
     return ops
 
